@@ -36,6 +36,7 @@ from typing import (
     NamedTuple,
     Optional,
     Sequence,
+    Set,
     Tuple,
     Union,
     overload,
@@ -203,6 +204,7 @@ class _CFIProcedureTracker:
         self, module: gtirb.Module, sorted_blocks: List[gtirb.ByteBlock]
     ):
         self._tree = IntervalTree()
+        self._ends: Set[Tuple[int, int]] = set()
 
         table = _auxdata_offsetmap.cfi_directives.get(module)
         if not table:
@@ -230,9 +232,14 @@ class _CFIProcedureTracker:
                         # and ends at the same place; nothing is inside it.
                         if procedure_start != procedure_end:
                             self._tree.addi(procedure_start, procedure_end)
+                            self._ends.add(procedure_end)
 
     def in_procedure(self, block_idx: int, offset: int) -> bool:
-        return bool(self._tree.at((block_idx, offset)))
+        # Code inserted at the very end of a procedure stays inside of it
+        # (the .cfi_endproc ends up behind the inserted code), so the end
+        # point counts as being in the procedure too.
+        point = (block_idx, offset)
+        return bool(self._tree.at(point)) or point in self._ends
 
 
 class RewritingContext:
